@@ -380,7 +380,7 @@ pub fn parse_record(b: &[u8], ncols: usize, index_bits: &dyn Fn(u8) -> Vec<u8>) 
 				} else {
 					return Rec::Invalid
 				};
-				if check_range && (bits >= 58 || index >= (1u64 << bits) * 64) {
+				if check_range && (bits >= 58 || index >= (1u64 << bits)) {
 					return Rec::Invalid
 				}
 				needp!(8);
